@@ -36,7 +36,10 @@ Inductive sty : Type :=
 | STuple (l : list sty)            (* registry.tuple(fields)          kind Tuple *)
 | SList (e : sty)                  (* registry.list(e, 0, true)       kind List, variadic tuple *)
 | SSet (e : sty)
-| SMap (k v : sty).
+| SMap (k v : sty)
+| SBundle (id : Z) (ps : list sty).  (* named (nominal) Bundle schema; ps = bundle_hierarchy->parents in declaration
+                                       order: like the interned metadata, a bundle carries its ancestry.  All
+                                       bundles of the harness have the same single field, so fields are not modelled *)
 
 (* TSValueTypeMetaData.  Bundle name 0 = un-named TSB. *)
 Inductive tty : Type :=
@@ -67,7 +70,45 @@ Fixpoint sty_eqb (a b : sty) {struct a} : bool :=
   | SList x, SList y => sty_eqb x y
   | SSet x, SSet y => sty_eqb x y
   | SMap k v, SMap k' v' => sty_eqb k k' && sty_eqb v v'
+  | SBundle i ps, SBundle j ps' => (i =? j) && forall2b (fun x y => sty_eqb x y) ps ps'
   | _, _ => false
+  end.
+
+(* ---- nominal bundle inheritance ---- *)
+
+Definition omin (a b : option nat) : option nat :=
+  match a, b with
+  | Some x, Some y => Some (Nat.min x y)
+  | Some x, None => Some x
+  | None, o => o
+  end.
+
+(* TypeRegistry::bundle_inheritance_distance(candidate = c, base = the bundle named b): the SHORTEST number
+   of parent edges from c up to b (0 for c itself), None when b is not an ancestor.  The code finds it by a
+   depth-first walk with a best_distance relaxation; this is the value that walk computes, written as the
+   recursion it satisfies: min over the declared parents of 1 + their distance. *)
+Fixpoint bdist (b : Z) (c : sty) {struct c} : option nat :=
+  match c with
+  | SBundle id ps =>
+      if id =? b then Some O
+      else fold_right (fun p acc => omin (option_map S (bdist b p)) acc) None ps
+  | _ => None
+  end.
+
+Definition bundle_id (s : sty) : option Z := match s with SBundle id _ => Some id | _ => None end.
+
+(* TypeRegistry::bundle_is_a(candidate, base) on named bundles *)
+Definition bundle_is_a (c base : sty) : bool :=
+  match c, base with
+  | SBundle _ _, SBundle b _ => match bdist b c with Some _ => true | None => false end
+  | _, _ => false
+  end.
+
+(* bundle_inheritance_distance as the dispatcher uses it: nullopt counts 0 *)
+Definition bundle_distance (c base : sty) : Z :=
+  match c, base with
+  | SBundle _ _, SBundle b _ => match bdist b c with Some d => Z.of_nat d | None => 0 end
+  | _, _ => 0
   end.
 
 (* pointer identity of interned time-series schemas *)
@@ -121,9 +162,21 @@ Fixpoint deref (t : tty) : tty :=
   | _ => t
   end.
 
-(* graph_wiring_detail::input_accepts_output_schema (no named scalar bundles in this universe) *)
+(* graph_wiring_detail::input_accepts_output_schema: equivalent after dereferencing, or both TS of named
+   bundles with the output's bundle a descendant of the input's *)
+Definition ts_bundle_is_a (out inp : tty) : bool :=
+  match out, inp with TTs y, TTs x => bundle_is_a y x | _, _ => false end.
+
 Definition input_accepts (c t : tty) : bool :=
-  match c with TSignal => true | _ => tty_equiv (deref c) (deref t) end.
+  match c with
+  | TSignal => true
+  | _ => tty_equiv (deref c) (deref t) || ts_bundle_is_a (deref t) (deref c)
+  end.
+
+(* input_adaptation_rank: a concrete TS[Base] leaf taking a TS[Derived] costs the inheritance distance *)
+Definition adaptation_rank_c (c t : tty) : Z :=
+  if tty_equiv (deref c) (deref t) then 0
+  else match deref c, deref t with TTs x, TTs y => bundle_distance y x | _, _ => 0 end.
 
 (* ------------------------------------------------------------------------- *)
 (* ResolutionMap                                                              *)
@@ -363,7 +416,20 @@ Fixpoint imatch (p : tpat) (t0 : tty) (m : rmap) {struct p} : option rmap :=
           end
       | _ => None
       end
-  | PTs sp => match t with TTs s => smatch sp s m | _ => None end
+  | PTs sp =>
+      match t with
+      | TTs s =>
+          (* input_scalar_pattern_match: a variable already bound to a named bundle takes any descendant *)
+          match sp with
+          | PSVar v _ =>
+              match afind v (r_sc m) with
+              | Some b => if bundle_is_a s b then Some m else smatch sp s m
+              | None => smatch sp s m
+              end
+          | _ => smatch sp s m
+          end
+      | _ => None
+      end
   | PVar _ _ | PTss _ | PTsw _ _ _ _ => tmatch p t m
   end.
 
@@ -490,7 +556,7 @@ Fixpoint vs_is (t : tty) (v : sty) {struct t} : bool :=
 (* current_value_schema_compatible *)
 Fixpoint compat (t : tty) (v : sty) {struct t} : bool :=
   match t with
-  | TTs x => sty_eqb x v
+  | TTs x => sty_eqb x v || bundle_is_a v x
   | TSignal => sty_eqb (SAtom 0) v
   | TRef _ => false
   | TTsw x p _ => match v with SList e => (p =? 0) && sty_eqb x e | _ => false end
@@ -575,7 +641,8 @@ Definition match_arg (pr : param) (a : arg) (st : rmap * Z) : option (rmap * Z) 
   let '(m, adj) := st in
   match pr, a with
   | PIn _, ANull => Some (m, adj)
-  | PIn p, ATs t => option_map (fun m' => (m', adj)) (imatch p t m)   (* input_adaptation_rank = 0 here *)
+  | PIn p, ATs t =>
+      option_map (fun m' => (m', adj + match p with PConc c => adaptation_rank_c c t | _ => 0 end)) (imatch p t m)
   | PIn p, ASc v => option_map (fun m' => (m', adj + 1)) (promote p v m)
   | PIn _, AAbsent => None
   | PScal _, ATs _ | PScal _, ANull => None
@@ -762,6 +829,10 @@ Fixpoint p_sty (f : nat) (l : list Z) : option (sty * list Z) :=
           | Some (k, r') => match p_sty f' r' with Some (v, r'') => Some (SMap k v, r'') | None => None end
           | None => None
           end
+      | 7 :: id :: n :: r =>
+          if (0 <=? id) && cnt_ok n then
+            match p_many (p_sty f') (Z.to_nat n) r with Some (ps, r') => Some (SBundle id ps, r') | None => None end
+          else None
       | _ => None
       end
   end.
@@ -888,6 +959,7 @@ Fixpoint enc_sty (s : sty) : list Z :=
   | SList e => 3 :: enc_sty e
   | SSet e => 4 :: enc_sty e
   | SMap k v => 5 :: enc_sty k ++ enc_sty v
+  | SBundle id ps => 7 :: id :: Z.of_nat (length ps) :: flat_map enc_sty ps
   end.
 
 Fixpoint enc_tty (t : tty) : list Z :=
@@ -955,7 +1027,8 @@ Definition p_index : parser Z :=
   fun l => match l with i :: r => if 0 <=? i then Some (i, r) else None | [] => None end.
 
 Record spec : Type := mkSpec {
-  sp_ovs : list cand; sp_orders : list (list Z); sp_queries : list query; sp_scripts : list (list bindop) }.
+  sp_ovs : list cand; sp_orders : list (list Z); sp_queries : list query; sp_scripts : list (list bindop);
+  sp_probes : list (sty * sty) }.    (* direct bundle_is_a / bundle_inheritance_distance probes (candidate, base) *)
 
 (* registration computes the rank from the parameter patterns (defaults do not enter it) *)
 Definition mk_cand_d (label : Z) (has_out : bool) (out : tpat) (pds : list (param * option arg)) : cand :=
@@ -975,7 +1048,7 @@ Definition p_line (s : spec) (l : list Z) : option spec :=
             if cnt_ok n then
               match p_many (p_param f) (Z.to_nat n) r' with
               | Some (ps, []) =>
-                  Some (mkSpec (sp_ovs s ++ [mk_cand_d label (ho =? 1) out ps]) (sp_orders s) (sp_queries s) (sp_scripts s))
+                  Some (mkSpec (sp_ovs s ++ [mk_cand_d label (ho =? 1) out ps]) (sp_orders s) (sp_queries s) (sp_scripts s) (sp_probes s))
               | _ => None
               end
             else None
@@ -985,7 +1058,7 @@ Definition p_line (s : spec) (l : list Z) : option spec :=
   | 3 :: n :: r =>
       if cnt_ok n then
         match p_many p_index (Z.to_nat n) r with
-        | Some (ord, []) => Some (mkSpec (sp_ovs s) (sp_orders s ++ [ord]) (sp_queries s) (sp_scripts s))
+        | Some (ord, []) => Some (mkSpec (sp_ovs s) (sp_orders s ++ [ord]) (sp_queries s) (sp_scripts s) (sp_probes s))
         | _ => None
         end
       else None
@@ -1005,7 +1078,7 @@ Definition p_line (s : spec) (l : list Z) : option spec :=
                           | Some (args, []) =>
                               let q := mkQuery (if oreq =? -1 then None else Some (oreq =? 1)) expected
                                                (fold_left apply_bind_keep binds empty_rmap) hints args in
-                              Some (mkSpec (sp_ovs s) (sp_orders s) (sp_queries s ++ [q]) (sp_scripts s))
+                              Some (mkSpec (sp_ovs s) (sp_orders s) (sp_queries s ++ [q]) (sp_scripts s) (sp_probes s))
                           | _ => None
                           end
                         else None
@@ -1018,10 +1091,19 @@ Definition p_line (s : spec) (l : list Z) : option spec :=
         | _ => None
         end
       else None
+  | 8 :: r =>
+      match p_sty f r with
+      | Some (c, r') =>
+          match p_sty f r' with
+          | Some (b, []) => Some (mkSpec (sp_ovs s) (sp_orders s) (sp_queries s) (sp_scripts s) (sp_probes s ++ [(c, b)]))
+          | _ => None
+          end
+      | None => None
+      end
   | 7 :: n :: r =>
       if cnt_ok n then
         match p_many (p_bind f) (Z.to_nat n) r with
-        | Some (ops, []) => Some (mkSpec (sp_ovs s) (sp_orders s) (sp_queries s) (sp_scripts s ++ [ops]))
+        | Some (ops, []) => Some (mkSpec (sp_ovs s) (sp_orders s) (sp_queries s) (sp_scripts s ++ [ops]) (sp_probes s))
         | _ => None
         end
       else None
@@ -1091,7 +1173,18 @@ Definition indexed {A : Type} (l : list A) : list (Z * A) := combine (map Z.of_n
 Definition family_of (s : spec) (ord : list Z) : list cand :=
   flat_map (fun i => match nth_error (sp_ovs s) (Z.to_nat i) with Some c => [c] | None => [] end) ord.
 
+Definition probe_line (k : Z) (cb : sty * sty) : list Z :=
+  let '(c, b) := cb in
+  match c, b with
+  | SBundle _ _, SBundle bid _ =>
+      [59; k; b2z (sty_eqb c b || bundle_is_a c b);
+       match bdist bid c with Some d => Z.of_nat d | None => -1 end]
+  | _, _ => [59; k; b2z (sty_eqb c b); -1]
+  end.
+
 Definition run_spec (s : spec) : wire :=
+  map (fun kp => probe_line (fst kp) (snd kp)) (indexed (sp_probes s)) ++
+  map (fun ic => [56; fst ic; c_rank (snd ic)]) (indexed (sp_ovs s)) ++
   flat_map (fun ks => let '(fl, mf) := run_script (snd ks) empty_rmap in
                       (57 :: fst ks :: fl) :: map_lines [58; fst ks] mf) (indexed (sp_scripts s)) ++
   flat_map (fun ic => map (fun jq => solo_line (fst jq) (fst ic) (resolve [snd ic] (snd jq))) (indexed (sp_queries s)))
@@ -1101,7 +1194,7 @@ Definition run_spec (s : spec) : wire :=
            (indexed (sp_orders s)).
 
 Definition run_resolve (w : wire) : wire :=
-  match p_case w (mkSpec [] [] [] []) with
+  match p_case w (mkSpec [] [] [] [] []) with
   | Some s => if orders_ok s then run_spec s else [[99]]
   | None => [[99]]
   end.
